@@ -337,7 +337,12 @@ class Analyzer:
                 return True
             rx = re.compile(r'(^|[^\w])_%d([^\d]|$)' % lhs['l'])
             return any(rx.search(a.split(':', 1)[1]) for a in atoms if a.startswith(('P:', 'len:')))
-        cs = fn.canon_str(lhs)
+        cl = fn.canon(lhs)
+        cs = place_str(cl)
+        if cl['p'] and isinstance(cl['p'][-1], dict) and ('idx' in cl['p'][-1] or 'cidx' in cl['p'][-1]):
+            # a store to one element: only atoms that name an element of that same slice are affected
+            base = place_str({'l': cl['l'], 'p': cl['p'][:-1], 'ty': ''})
+            return any(a.startswith('P:') and a[2:].startswith(base + '[') for a in atoms)
         for a in atoms:
             if a.startswith('P:') and (a[2:] == cs or a[2:].startswith(cs + '.') or cs.startswith(a[2:] + '.')):
                 return True
@@ -348,18 +353,32 @@ class Analyzer:
     def _call_may_write(self, t, atoms):
         """A call that receives &mut to (a prefix of) a place an atom depends on may change it."""
         fn = self.fn
+        args = []
         for a in t['args']:
             if not is_place(a):
                 continue
             ty = a['pl'].get('ty') or fn.local_ty(a['pl']['l'])
-            if not ty.startswith('&mut '):
-                continue
+            if ty.startswith('&mut '):
+                args.append(a)
+            elif '&mut ' in ty and not a['pl']['p']:
+                # a tuple / closure environment carrying mutable references (e.g. the argument tuple of FnOnce::call_once)
+                sd = fn.single_def(a['pl']['l'])
+                if sd and sd[2] == 'assign' and sd[3]['rv']['k'] == 'agg':
+                    for o in sd[3]['rv']['ops']:
+                        if is_place(o) and (o['pl'].get('ty') or fn.local_ty(o['pl']['l'])).startswith('&mut '):
+                            args.append(o)
+                else:
+                    return True          # cannot see through it: assume it may write anything
+        for a in args:
+            ty = a['pl'].get('ty') or fn.local_ty(a['pl']['l'])
             base = fn.canon({'l': a['pl']['l'], 'p': a['pl']['p'] + ['deref'], 'ty': ''})
             bs = place_str(base)
             written = self._callee_written_fields(t)
             for at in atoms:
                 body = at.split(':', 1)[1] if ':' in at else at
                 if bs in body:
+                    if ty.startswith('&mut [') and at.startswith('len:') and body == bs:
+                        continue          # a callee cannot change the length of a slice it receives by reference
                     if written is not None:
                         # a callee of this crate: it can only change the fields it (transitively) stores to
                         rest = body.replace(bs, '', 1)
@@ -373,6 +392,11 @@ class Analyzer:
         """Names of struct fields a crate-local callee may store to (transitively), or None for foreign callees."""
         n = callee_name(t)
         if not n or n not in self.F.fns:
+            # an indirect call (closure parameter): the rule module may have supplied the union of the effects of every
+            # closure that is ever passed to this function
+            iw = getattr(self.S, 'indirect_writes', {}).get(self.fn.gpath)
+            if iw is not None and (not n or 'FnOnce' in n or 'FnMut' in n or n.endswith('::call')):
+                return set(iw)
             return None
         cache = self.S.__dict__.setdefault('_cwf', {})
         if n not in cache:
@@ -806,6 +830,8 @@ class Analyzer:
         facts += self.slice_facts(site_block, site_idx)
         facts += self.assert_facts(site_block, site_idx)
         facts += self.mono_facts(site_block, site_idx)
+        facts += self.store_facts(site_block, site_idx)
+        facts += self.load_congruence(site_block, site_idx)
         for hook in self.S.post.get('__site_hooks__', []):
             facts += hook(self, site_block, site_idx) or []
         pre = self.S.pre.get(self.fn.gpath)
@@ -826,10 +852,108 @@ class Analyzer:
         if not mk:
             return out
         cons, deps = mk(self, '(*_1)' if fn.local_ty(1).startswith('&') else '_1')
+        strong = ty in getattr(self.S, 'strong_inv', ())
+        if strong:
+            out.extend(self.snapshot_facts(cons, site_block, site_idx))
         for c in cons:
             atoms = {a for a in c if a != '1'}
-            if self.stable_between(atoms, ('entry',), (site_block, site_idx)):
+            # a *strong* invariant is re-established by every single store to its fields (verified store by store by the
+            # rule modules), so it holds at every program point of every method, whatever was written before
+            if strong or self.stable_between(atoms, ('entry',), (site_block, site_idx)):
                 out.append(c)
+        return out
+
+    def store_facts(self, site_block, site_idx):
+        """F10: after `place = value` (a store to a field), place == value until either side is written again."""
+        fn = self.fn
+        out = []
+        cache = self.__dict__.setdefault('_stores', None)
+        if cache is None:
+            cache = []
+            for b, blk in enumerate(fn.blocks):
+                if blk['cleanup']:
+                    continue
+                for i, st in enumerate(blk['stmts']):
+                    if st['k'] == 'assign' and st['lhs']['p'] and isinstance(st['lhs']['p'][-1], dict) and 'f' in st['lhs']['p'][-1] and (st['lhs'].get('ty') in UMAX):
+                        cache.append((b, i, st))
+            self._stores = cache
+        saved = self._site
+        for b, i, st in cache:
+            if not (fn.dominates(b, site_block) and (b != site_block or (site_idx is not None and i < site_idx) or (site_idx is None))):
+                continue
+            if b == site_block and site_idx is not None and i >= site_idx:
+                continue
+            self._site = (site_block, site_idx)
+            atom = self.atom_place(st['lhs'])
+            self._site = (b, i)
+            v = self.ev_rv(st['rv'], 0, (b, i))
+            self._site = saved
+            if v is None or atom in v:
+                continue
+            atoms = self.mutable_atoms(v) | {atom}
+            if not self.stable_between(atoms, ('def', b, i), (site_block, site_idx)):
+                continue
+            out.extend(eq(lin(atom), v))
+        self._site = saved
+        return out
+
+    def load_congruence(self, site_block, site_idx):
+        """Two single-assignment loads of the same place with no write to it in between hold the same value."""
+        fn = self.fn
+        groups = self.__dict__.setdefault('_loads', None)
+        if groups is None:
+            groups = {}
+            for l, ds in fn.defs().items():
+                if len(ds) != 1 or ds[0][2] != 'assign' or 1 <= l <= fn.argc or fn.local_ty(l) not in UMAX:
+                    continue
+                b, i, _, node = ds[0]
+                rv = node['rv']
+                if rv['k'] == 'use' and is_place(rv['op']) and rv['op']['pl']['p'] and not fn.blocks[b]['cleanup'] and not any(isinstance(p, dict) and ('idx' in p) for p in rv['op']['pl']['p']):
+                    groups.setdefault('P:' + fn.canon_str(rv['op']['pl']), []).append((b, i, l))
+            self._loads = groups
+        out = []
+        for atom, ls in groups.items():
+            if len(ls) < 2:
+                continue
+            ls = [x for x in ls if fn.dominates(x[0], site_block)]
+            for x in range(len(ls)):
+                for y in range(len(ls)):
+                    if x == y:
+                        continue
+                    (b1, i1, l1), (b2, i2, l2) = ls[x], ls[y]
+                    if not (fn.dominates(b1, b2) and (b1 != b2 or i1 < i2)):
+                        continue
+                    if self.stable_between({atom}, ('def', b1, i1), (b2, i2)):
+                        out.extend(eq(lin(self.atom_local(l1)), lin(self.atom_local(l2))))
+        return out
+
+    def snapshot_facts(self, cons, site_block, site_idx):
+        """A local that was loaded from a field of a strongly-invariant `self` keeps satisfying the invariant constraints
+        that held at the load, as long as the *other* quantities in them are unchanged since (the field itself may since
+        have been overwritten: `let old = self.limit; self.limit = new; .. old ..`)."""
+        fn = self.fn
+        out = []
+        for l, ds in fn.defs().items():
+            if len(ds) != 1 or ds[0][2] != 'assign' or 1 <= l <= fn.argc:
+                continue
+            b, i, _, node = ds[0]
+            rv = node['rv']
+            if rv['k'] != 'use' or not is_place(rv['op']) or not rv['op']['pl']['p']:
+                continue
+            if not (fn.dominates(b, site_block) and (b != site_block or site_idx is None or i < site_idx)):
+                continue
+            atom = 'P:' + fn.canon_str(rv['op']['pl'])
+            me = self.atom_local(l)
+            for c in cons:
+                if atom not in c:
+                    continue
+                others = {a for a in c if a not in ('1', atom)}
+                if others and not self.stable_between(self.mutable_atoms({a: 1 for a in others}) | {a for a in others if a.startswith(('P:', 'len:'))}, ('def', b, i), (site_block, site_idx)):
+                    continue
+                c2 = dict(c)
+                k = c2.pop(atom)
+                c2[me] = c2.get(me, 0) + k
+                out.append(c2)
         return out
 
     def prove(self, site_block, site_idx, goals, extra=(), split=True):
